@@ -87,9 +87,9 @@ func registry() map[string]PropSpec {
 			{Pkg: ".", Name: "c15_scalar", Quick: map[string]int{"len": 8}, Unwind: [2]int{16, 16},
 				What: "NewScalarStep for every lower-case byte string of length <= 8"},
 			{Pkg: ".", Name: "c15_infer", Quick: map[string]int{"extralen": 8}, Unwind: [2]int{24, 24},
-				What: "stepByKeyInference over all 2^10 subsets of the kind keys plus one arbitrary extra key (<= 8 bytes, first or last)"},
+				What: "stepByKeyInference over all 2^10 subsets of the kind keys plus one arbitrary extra key (<= 8 bytes, first or last), optionally after an earlier step in the same process whose inference failed (the table has no memory)"},
 			{Pkg: ".", Name: "c15_frommap", Quick: map[string]int{"len": 8, "keys": 2}, Thorough: map[string]int{"len": 8, "keys": 4}, Unwind: [2]int{32, 32},
-				What: "stepFromMap end to end through the reflective unmarshaler: type absent/string/non-string, up to `keys` kind keys with minimal values, an ill-typed plugins value, an extra key"},
+				What: "stepFromMap end to end through the reflective unmarshaler: type absent/string/non-string, up to `keys` kind keys with minimal values, an ill-typed plugins value, an extra key; optionally after an earlier failed inference, unknown type or unknown scalar in the same process"},
 		},
 		Outside: []string{
 			"type / scalar strings longer than 8 bytes or outside [a-z] (all table entries are <= 8 lower-case bytes)",
@@ -127,7 +127,7 @@ func registry() map[string]PropSpec {
 				What:   "a failing expansion at any of five positions makes Interpolate return an error"},
 			{Pkg: ".", Name: "c04_transform", Quick: map[string]int{"len": 4}, Thorough: map[string]int{"len": 6}, Unwind: [2]int{48, 64}, Budget: [2]int{120, 1500},
 				Models: []string{"github.com/buildkite/interpolate.Interpolate=vpModelInterpolate"}, Validate: []string{"interpolate"},
-				What:   "envInterpolator.Transform on every string of <= len bytes over {A, x, $, backslash, braces, (} with A bound to a symbolic value: fails exactly when, and returns exactly what, the single-pass expansion does (no pre-filter or fast path treats escapes, trailing $ or braces differently)"},
+				What: "envInterpolator.Transform on every string of <= len bytes over {A, x, $, backslash, braces, (} with A bound to a symbolic value: fails exactly when, and returns exactly what, the single-pass expansion does (no pre-filter or fast path treats escapes, trailing $ or braces differently)"},
 		},
 		Outside: []string{
 			"trees deeper than the bound; maps with more than 2 entries; strings longer than 1 symbolic byte plus concrete tags",
@@ -184,6 +184,8 @@ func registry() map[string]PropSpec {
 		Harnesses: []HSpec{
 			{Pkg: "ordered", Name: "c07_merge_chain", Quick: map[string]int{"typedkeys": 0}, Unwind: [2]int{32, 32},
 				What: "DecodeYAML on merge chains (root merges a and/or c by alias or sequence of aliases, a merges c, merge at any position, symbolic keys): content and order equal the reference of the merge rules"},
+			{Pkg: "ordered", Name: "c07_reexpand", Quick: map[string]int{}, Unwind: [2]int{32, 32},
+				What: "an anchored subtree that itself contains aliases (alias value, sequence of aliases, nested sequence, merge) expanded one or two more times as a value, inside a sequence or through a merge: decodes without error, content and key order equal the reference, ordered mappings at every depth (yaml.v3's own decoder, which yields Go maps, is modelled), every expansion an independent copy"},
 			{Pkg: "ordered", Name: "c07_typed_merge", Quick: map[string]int{}, Unwind: [2]int{32, 32},
 				What: "a mapping that merges an anchored one, both keyed by typed scalars (!!int 0x1F and 31, !!bool True, !!float 1.5; 1-2 keys in the source, 0-2 explicit keys, merge at any position): explicit-beats-merged and merge-position order are decided on the canonical key (31, true, 1.500000e+00), not on the spelling"},
 			{Pkg: "ordered", Name: "c07_graph", Quick: map[string]int{"pool": 1, "poolentries": 1, "rootentries": 2, "poolnested": 1}, Thorough: map[string]int{"pool": 1, "poolentries": 2, "rootentries": 2, "poolnested": 0}, Unwind: [2]int{32, 48}, Budget: [2]int{120, 1500},
@@ -207,6 +209,8 @@ func registry() map[string]PropSpec {
 				What: "a programmatically built ordered map (Set of up to `entries` keys, nested one level, then up to `ops` Delete/Replace operations that leave tombstoned slots at the front, middle or end) survives json.Marshal -> yaml.Unmarshal -> DecodeYAML and MarshalYAML -> DecodeYAML with keys, values and order (ordered.Equal)"},
 			{Pkg: "ordered", Name: "c07_merge_chain", Quick: map[string]int{"typedkeys": 0}, Unwind: [2]int{32, 32},
 				What: "merged keys stand where the merge key stood (shared with C07: order is part of the reference comparison)"},
+			{Pkg: "ordered", Name: "c07_reexpand", Quick: map[string]int{}, Unwind: [2]int{32, 32},
+				What: "an anchored subtree that itself contains aliases (alias value, sequence of aliases, nested sequence, merge) expanded one or two more times as a value, inside a sequence or through a merge: decodes without error, content and key order equal the reference, ordered mappings at every depth (yaml.v3's own decoder, which yields Go maps, is modelled), every expansion an independent copy"},
 			{Pkg: "ordered", Name: "c07_typed_merge", Quick: map[string]int{}, Unwind: [2]int{32, 32},
 				What: "a mapping that merges an anchored one, both keyed by typed scalars (!!int 0x1F and 31, !!bool True, !!float 1.5; 1-2 keys in the source, 0-2 explicit keys, merge at any position): explicit-beats-merged and merge-position order are decided on the canonical key (31, true, 1.500000e+00), not on the spelling"},
 			{Pkg: ".", Name: "c08_plugins_order", Quick: map[string]int{"entries": 3}, Thorough: map[string]int{"entries": 4}, Unwind: [2]int{48, 64},
@@ -258,6 +262,9 @@ func registry() map[string]PropSpec {
 			{Pkg: ".", Name: "c19_obs_step", Quick: map[string]int{}, Unwind: [2]int{64, 64},
 				Models: []string{"net/url.Parse=vpModelURLParse", "path.Join=vpModelPathJoin"},
 				What:   "CommandStep.MarshalJSON does not modify the step nor materialise absent fields"},
+			{Pkg: ".", Name: "c19_warnings", Quick: map[string]int{}, Unwind: [2]int{128, 128}, FixedMapOrder: true,
+				Models: []string{"net/url.Parse=vpModelURLParse", "path.Join=vpModelPathJoin"},
+				What:   "two parses in one process that each fall back on some steps (kind not inferable, unknown type, unknown scalar, malformed field; 1-2 and 1 steps): the two warnings, and the two pipelines, share no mutable heap object, and the later parse neither changes the earlier warning nor reports anything but its own fallbacks"},
 			{Pkg: ".", Name: "c19_disjoint", Quick: map[string]int{}, Unwind: [2]int{128, 128}, FixedMapOrder: true,
 				Models: []string{"net/url.Parse=vpModelURLParse", "path.Join=vpModelPathJoin", "github.com/buildkite/interpolate.Interpolate=vpModelInterpolate"},
 				What:   "separation: a document whose two steps spell an unknown field, the step env, plugins with configs, a matrix, a whole step or a group's children once with an anchor and twice with aliases is parsed twice; the three steps of one parse, and the two parses, share no mutable heap object (walk over the engine heap: pointer targets, slice backing arrays, maps), and interpolating one step changes neither its sibling nor the other parse"},
@@ -282,6 +289,8 @@ func registry() map[string]PropSpec {
 				What: "slice, map, nested struct, pointer-to-struct (with alias) fields and an ordered inline *MapSA: append/fill/zero semantics, nested alias precedence, leftovers in document order"},
 			{Pkg: "ordered", Name: "c16_inline_struct", Quick: map[string]int{}, Unwind: [2]int{48, 64},
 				What: "inline pointer-to-struct (the CommandStep pattern): leftovers of the outer level are partitioned again by the inline struct"},
+			{Pkg: "ordered", Name: "c16_tags", Quick: map[string]int{}, Unwind: [2]int{48, 64},
+				What: "tag spellings: fields tagged with flags only (`,omitempty`, `,flow`) take their lower-cased names like untagged fields, flags after a key change nothing, the empty input key and free keys (1-2 symbolic bytes) go to the inline map and nothing else does"},
 			{Pkg: "ordered", Name: "c16_scalar_kinds", Quick: map[string]int{}, Unwind: [2]int{48, 64},
 				What: "unmarshalScalar: every scalar kind (string, int, float, bool) into every scalar-accepting destination (string, int, float, bool, any, []any, []string, []int): copied, appended, formatted, or an error - never silently converted or dropped"},
 		},
@@ -405,6 +414,8 @@ func registry() map[string]PropSpec {
 				What: "every Cache.MarshalJSON shape (false, paths, full map with extras, {}, name only) round-trips"},
 			{Pkg: ".", Name: "c09_pipeline", Quick: map[string]int{}, Unwind: [2]int{64, 64}, FixedMapOrder: true, Models: []string{"net/url.Parse=vpModelURLParse", "path.Join=vpModelPathJoin"},
 				What: "a small pipeline (command with plugin, group with children, wait/input/trigger/unknown step, env block, extras) through the whole-document path: same step kinds, group contents, env order; idempotent"},
+			{Pkg: ".", Name: "c09_mixed_keys", Quick: map[string]int{}, Unwind: [2]int{64, 64}, FixedMapOrder: true, Models: []string{"net/url.Parse=vpModelURLParse", "path.Join=vpModelPathJoin"},
+				What: "a step without `type` that carries keys of two kind families (every ordered pair of command, plugins, wait, block, input, trigger, group): whatever kind it parses to, the JSON and the YAML form parse to the same kind again and the JSON normal form is a fixpoint (the marshallers re-order keys: the decision must not depend on key order)"},
 			{Pkg: ".", Name: "c09_yaml_step", Quick: map[string]int{}, Unwind: [2]int{64, 64}, FixedMapOrder: true, Budget: [2]int{120, 900}, Models: []string{"net/url.Parse=vpModelURLParse", "path.Join=vpModelPathJoin"},
 				What: "YAML leg on the node data model: yaml.Marshal of a pipeline holding one command step from the option lattice (env, plugins, every matrix and cache shape, signature, extras) -> node tree -> parse again: no warning, still a command step, and the same JSON data model as before (both formats carry the same data)"},
 			{Pkg: ".", Name: "c09_yaml_pipeline", Quick: map[string]int{}, Unwind: [2]int{64, 64}, FixedMapOrder: true, Models: []string{"net/url.Parse=vpModelURLParse", "path.Join=vpModelPathJoin"},
